@@ -51,6 +51,7 @@ func (p *ParserZH) ParseAST(l *syntax.Lexer) (pg *syntax.Program, err error) {
 }
 
 func (p *ParserZH) next() *syntax.Token {
+	verifTick()
 	var tk syntax.Token // default tk.Type = 0 (TypeEOF)
 	var err error
 	// init next tk first
